@@ -35,7 +35,9 @@ def streams(tier, rng, P, only=None, cases=None):
             name = rng.choice(["#A", "#Mac", "STRV"])
             if name.startswith("#"): define = "%s={%s}" % (name, body); call0 = name
             else: define = "STR %s={%s};" % (name, body); call0 = name
-            call = call0 + ("(%s)" % ",".join("{%s}" % a for a in args) if npar else "")
+            # (an argument position may be left empty: it still holds its place, the parameter is the empty text)
+            if npar >= 2 and rng.random() < 0.2: args[rng.randrange(npar)] = ""
+            call = call0 + ("(%s)" % ",".join(("{%s}" % a) if (a or rng.random() < 0.3) else "" for a in args) if npar else "")
             site = rng.choice(["%s", "%s", "[2 %s]", "Sub{ %s } r", "o5 %s v100", "#Outer={ %s r} #Outer"])
             pre = rng.choice(["", "l8 ", "o4 v80 "])
             raw.append(dict(define=define, call=call, site=site, pre=pre, body=body, args=args))
